@@ -228,6 +228,44 @@ def u_group_perm(h, positive=False):
     h.ensure('generalized_support', bool(ga[0]) == bool(gb[1]) and bool(ga[1]) == bool(gb[0]))
 
 
+def u_sgl_perm(h, perm):
+    """sparse group lasso (WeightedL1GroupL2): permuting the features together with their weights and group
+    membership leaves value / prox unchanged up to the permutation"""
+    Pm = P()
+    al = h.real('alpha')
+    s = h.real('step')
+    h.assume(al > 0, s > 0)
+    p = 3
+    layA = [[0, 2], [1]]
+    # new feature k is old feature perm[k]; old feature i sits at new position inv[i]
+    inv = [perm.index(i) for i in range(p)]
+    layB = [[inv[i] for i in g] for g in layA]
+    wg = h.vec('wg', 2)
+    wf = h.vec('wf', p)
+    for k in range(2):
+        h.assume(wg[k] >= 0)
+    for k in range(p):
+        h.assume(wf[k] >= 0)
+    wfB = h.arr([wf[perm[k]] for k in range(p)])
+
+    def mk(lay, wfeat):
+        gp = np.cumsum([0] + [len(g) for g in lay]).astype(np.int32)
+        gi = np.array([i for g in lay for i in g], dtype=np.int32)
+        return h.penalty(Pm.WeightedL1GroupL2, alpha=al, weights_groups=wg, weights_features=wfeat, grp_ptr=gp, grp_indices=gi)
+    a, b = mk(layA, wf), mk(layB, wfB)
+    w = h.vec('w', p)
+    wB = h.arr([w[perm[k]] for k in range(p)])
+    va = a.value(w)
+    h.observe('value', va)
+    h.ensure('value', h.eq(va, b.value(wB)))
+    for g, grp in enumerate(layA):
+        x = h.vec('x%d_' % g, len(grp))
+        pa = a.prox_1group(x, s, g)
+        pb = b.prox_1group(x, s, g)          # same group, same member order, features renamed
+        for k in range(len(grp)):
+            h.ensure('prox[%d][%d]' % (g, k), h.eq(pa[k], pb[k]))
+
+
 def u_task_perm(h):
     Pm, Dm = P(), D()
     al = h.real('alpha')
@@ -263,6 +301,50 @@ def u_task_perm(h):
     sa, sb = pen.subdiff_distance(W, G, np.arange(p)), pen.subdiff_distance(Wp, Gp, np.arange(p))
     for j in range(p):
         h.ensure('score[%d]' % j, h.eq(sa[j], sb[j]))
+
+
+def u_multitask_step_perm(h, X, j):
+    """one real multitask coordinate step on (Y, W) and on the task-swapped problem: results are the swap of each other,
+    and the model fit stays X W in both"""
+    from skglm.solvers.multitask_bcd import _bcd_epoch
+    from checks.common import X_of
+    Pm, Dm = P(), D()
+    Xc = X_of(X)
+    n, p = Xc.shape
+    T = 2
+    al = h.real('alpha')
+    h.assume(al > 0)
+    pen = h.penalty(Pm.L2_1, alpha=al)
+    Y = h.mat('Y', n, T)
+    W = h.mat('W', p, T)
+    Xd = h.const(Xc)
+
+    def run(Ym, Wm):
+        df = h.datafit(Dm.QuadraticMultiTask)
+        if h.mode == 'sym':
+            XW = h.arr([[sum(Xc[i, k] * Wm[k, t] for k in range(p) if Xc[i, k] != 0) for t in range(T)] for i in range(n)])
+        else:
+            XW = Xc @ np.asarray(Wm, dtype=float)
+        df.initialize(Xd, Ym)
+        lc = df.get_lipschitz(Xd, Ym)
+        W1, XW1 = Wm.copy(), XW.copy()
+        _bcd_epoch(Xd, Ym, W1, XW1, lc, df, pen, np.array([j], dtype=np.int64))
+        return W1, XW1
+    Ys = h.arr([[Y[i, 1], Y[i, 0]] for i in range(n)]) if h.mode == 'sym' else np.asarray(Y)[:, ::-1].copy()
+    Ws = h.arr([[W[k, 1], W[k, 0]] for k in range(p)]) if h.mode == 'sym' else np.asarray(W)[:, ::-1].copy()
+    W1, XW1 = run(Y, W)
+    W2, XW2 = run(Ys, Ws)
+    h.observe('w', W1[j, 0])
+    ok = h.true()
+    for k in range(p):
+        ok = h.and_(ok, h.and_(h.eq(W1[k, 0], W2[k, 1]), h.eq(W1[k, 1], W2[k, 0])))
+    h.ensure('step-commutes-with-task-swap', ok)
+    cons = h.true()
+    for i in range(n):
+        for t in range(T):
+            cons = h.and_(cons, h.eq(XW1[i, t], sum(Xc[i, k] * W1[k, t] for k in range(p) if Xc[i, k] != 0)))
+            cons = h.and_(cons, h.eq(XW2[i, t], sum(Xc[i, k] * W2[k, t] for k in range(p) if Xc[i, k] != 0)))
+    h.ensure('model-fit-consistent', cons)
 
 
 def u_grp_converter(h):
@@ -307,7 +389,12 @@ def units(tier):
         us.append(Unit('C15/K/scaling[%s]' % which, u_scaling, dict(which=which), wall_s=90))
     for pos in ((False,) if q else (False, True)):
         us.append(Unit('C15/K/group-perm[positive=%s]' % pos, u_group_perm, dict(positive=pos), wall_s=300))
+    for perm in ([1, 0, 2], [2, 0, 1]) if q else ([1, 0, 2], [2, 0, 1], [0, 2, 1], [1, 2, 0]):
+        us.append(Unit('C15/K/sparse-group-lasso-feature-perm[perm=%s]' % perm, u_sgl_perm, dict(perm=perm), wall_s=120))
     us.append(Unit('C15/K/task-perm', u_task_perm, {}, wall_s=120))
+    for j in (0, 1):
+        us.append(Unit('C15/S/multitask-step-task-swap[j=%d]' % j, u_multitask_step_perm, dict(X='corr32', j=j), wall_s=150,
+                       timeout_ms=8000))
     us.append(Unit('C15/K/grp_converter', u_grp_converter, {}, wall_s=30))
     return us
 
